@@ -717,6 +717,40 @@ def r11(ctx):
     from . import C07
     ctx.share("C03.R11", C07.r1, "C07.R1", floor=1)
 
+def r12(ctx):
+    """"at most ten minutes ahead of the local clock": the reference time is the wall clock and nothing else - sync::system_time_now
+    evaluated: its result is a function of SystemTime::now() alone (no static high-water mark, no value taken over from a peer can
+    move the bound)"""
+    from . import feval as E
+    f = ctx.facts
+    b = f.body("sync::system_time_now")
+    ctx.touch(b)
+    other = []
+
+    def oracle(kind, name, payload, site):
+        if kind != "call":
+            return None
+        t, args, it = payload
+        names = [it.tokname(a).strip("&*") for a in args]
+        if name == "now" and not args:
+            return E.Tok("wall-clock")
+        if name == "duration_since":
+            return E.Ok(E.Tok("since-epoch(%s)" % names[0]))
+        if name in ("as_micros", "as_millis", "as_nanos", "as_secs"):
+            return E.Tok("%s(%s)" % (name, names[0]))
+        other.append(name)
+        return None
+    try:
+        ret, itp = E.run_it(f, b.path, [], {}, oracle)
+        got = E.describe(itp.resolve(ret), f)
+    except E.Unsupported as e:
+        got = "UNSUPPORTED-FORM: %s" % e
+    statics = [str(o)[:80] for bi, si, st in b.statements() for o in ([st["r"][1]] if st["k"] == "assign" and st["r"][0] == "use" else []) if o[0] == "const" and "static" in str(o).lower()]
+    ok = got == "as_micros(since-epoch(wall-clock))" and not [x for x in other if x not in ("expect", "unwrap", "from", "into", "try_into", "try_from")] and not statics
+    ctx.check(ok, "C03.R12", b.path, "reference-time-is-the-wall-clock", "returns %s; other calls %s; statics read %s; spec: microseconds since the epoch of SystemTime::now(), nothing else" % (got, other, statics), b.sp)
+    ctx.floor("C03.R12", 1)
+
+
 def run(ctx):
     ctx.run_rule("C03.R1", r1)
     ctx.run_rule("C03.R2", r2)
@@ -729,3 +763,4 @@ def run(ctx):
     ctx.run_rule("C03.R9", r9)
     ctx.run_rule("C03.R10", r10)
     ctx.run_rule("C03.R11", r11)
+    ctx.run_rule("C03.R12", r12)
